@@ -71,6 +71,10 @@ func (re Regexp) MarshalYAML() (any, error) {
 	if re.Original != "" {
 		return re.Original, nil
 	}
+	if re.Regexp != nil {
+		// Compiled from an empty expression: print it as one, a null would not load back.
+		return "", nil
+	}
 	return nil, nil
 }
 
